@@ -211,6 +211,14 @@ def peek_aux():
     return None
 
 
+def peek_decision():
+    """while replaying a prefix: (condition hash, auxiliary value) of the next recorded decision (else None)"""
+    c = CTX
+    if c.pos < len(c.prefix):
+        return c.prefix[c.pos][1], c.prefix[c.pos][2]
+    return None
+
+
 def branch(cond, aux=None):
     """decide a Boolean term under the current path condition; forks when both sides are feasible"""
     if cond is True or cond is False:
